@@ -34,6 +34,14 @@ FILES = {
     'fsic/extensions/model.py': ['C17'],
     'fsic/fortran.py': ['C07'],
 }
+# functions whose property is not the one of their file
+FUNC_PROPS = {
+    ('fsic/core/models.py', '__init__'): ['C11', 'C07', 'C02'], ('fsic/core/models.py', 'reindex'): ['C12'], ('fsic/core/models.py', 'to_dataframe'): ['C19'],
+    ('fsic/core/linkers.py', 'to_dataframe'): ['C19'], ('fsic/core/linkers.py', 'to_dataframes'): ['C19'], ('fsic/core/linkers.py', 'reindex'): ['C12'],
+    ('fsic/core/linkers.py', '__init__'): ['C08', 'C11'], ('fsic/core/linkers.py', 'copy'): ['C11'],
+    ('fsic/core/containers.py', 'to_dataframe'): ['C19'], ('fsic/core/containers.py', 'reindex'): ['C12'], ('fsic/core/containers.py', 'eval'): ['C16'],
+    ('fsic/core/containers.py', 'copy'): ['C11'], ('fsic/core/interfaces.py', 'solve'): ['C05', 'C04'], ('fsic/core/interfaces.py', 'iter_periods'): ['C05', 'C03', 'C04'],
+}
 CMP = {ast.Lt: ast.LtE, ast.LtE: ast.Lt, ast.Gt: ast.GtE, ast.GtE: ast.Gt, ast.Eq: ast.NotEq, ast.NotEq: ast.Eq, ast.Is: ast.IsNot, ast.IsNot: ast.Is,
        ast.In: ast.NotIn, ast.NotIn: ast.In}
 VERIF = os.path.dirname(os.path.dirname(os.path.abspath(__file__)))
@@ -148,6 +156,7 @@ def main():
     ap.add_argument('--seed', type=int, default=1)
     ap.add_argument('--jobs', type=int, default=6)
     ap.add_argument('--files', default='')
+    ap.add_argument('--functions', default='', help='comma-separated file:function pairs (default: every function)')
     a = ap.parse_args()
     os.makedirs(a.work, exist_ok=True)
     rnd = random.Random(a.seed)
@@ -161,13 +170,15 @@ def main():
         for s in sites(tree):
             by_fn.setdefault(s[0], []).append(s)
         for fn, ss in sorted(by_fn.items()):
+            if a.functions and f'{rel}:{fn}' not in a.functions.split(','):
+                continue
             rnd.shuffle(ss)
             for s in ss[:a.per_function]:
                 mid = f'm{len(jobs):04d}'
                 text = ast.unparse(apply(tree, s[1], s[3])) + '\n'
                 if text == ast.unparse(tree) + '\n':
                     continue
-                jobs.append((mid, a.work, rel, text, props))
+                jobs.append((mid, a.work, rel, text, FUNC_PROPS.get((rel, fn), props)))
                 meta[mid] = (rel, fn, getattr(s[1], 'lineno', 0), s[2])
     print(len(jobs), 'mutants', file=sys.stderr)
     with open(os.path.join(a.work, 'mutants.tsv'), 'a') as out, cf.ThreadPoolExecutor(a.jobs) as ex:
